@@ -101,6 +101,7 @@ class Producer(object):
 
     _sendLooper = None
     _sendLooperD = None
+    stopping = False
 
     def __init__(
         self,
@@ -391,6 +392,11 @@ class Producer(object):
             payloadsByTopicPart[topicPart] = req
         # Make sure we have some payloads to send
         if not payloads:
+            return
+        # We can get here because stop() cancelled the partition lookups the
+        # batch was waiting on. Transmit nothing: stop() is about to fail all
+        # of the outstanding requests with CancelledError.
+        if self.stopping:
             return
         # send the request
         d = self.client.send_produce_request(
